@@ -655,7 +655,7 @@ func runC04(r *mon.Run) {
 		"(Precision 0, package-limit exponent range, any trap set, unknown rounding names, aliased destination), the parsers on grammar " +
 		"sentences / single-byte mutations / fragment concatenations / random bytes, the formatters with random fmt verbs and flags, " +
 		"conversions, Compose/Decompose, Condition/Rounder helpers, ErrDecimal, BigInt method sequences (negative values of every size " +
-		"class); a separate stratum places exponents at the +/-100000 limits and another uses precisions from 150 to 10000 digits (around the 2^k and constant-table boundaries), and a giant-operand stratum uses coefficients of 100001..140000 digits and exponents at opposite ends of the range (equal magnitudes that need aligning by more than 100000 places). Every call runs in a serial child process under recover() and " +
+		"class); a separate stratum places exponents at the +/-100000 limits and another uses precisions from 150 to 10000 digits (around the 2^k and constant-table boundaries), and a giant-operand stratum uses coefficients of 100001..140000 digits and exponents at opposite ends of the range (equal magnitudes that need aligning by more than 100000 places); an API-surface stratum enumerates the method sets of the exported types by reflection and drives every method that is not in the snapshot taken at the pinned commit with arguments built from its parameter types. Every call runs in a serial child process under recover() and " +
 		"a logical loop-iteration budget; a fatal runtime error is attributed through the journal and confirmed by re-running the case " +
 		"alone. Successful parses are checked for the structural invariant. distinct_nontrivial = distinct (entry point, case) executed."
 	r.Assumptions = []string{"'does not return' is decided as exceeding the loop-tick budget (2e7 ticks per call); a wall-clock watchdog firing without a tick overrun is inconclusive, not a violation",
@@ -665,10 +665,12 @@ func runC04(r *mon.Run) {
 	r.Isolated("extreme-exponents", r.N(2400, 120000), 16, 6000*time.Second, func(t *mon.T) { totalityCase(t, true) })
 	r.Isolated("high-precision", r.N(int64(len(highPrecisions))*10, int64(len(highPrecisions))*100), 16, 6000*time.Second, highPrecisionCase)
 	r.Isolated("giant-operands", r.N(64, 3200), 16, 6000*time.Second, giantCase)
+	r.Isolated("api-surface", r.N(3000, 100000), 16, 6000*time.Second, apiSurfaceCase)
 	if r.IsChild() {
 		return
 	}
 	r.Require("giant-operands", 60)
+	r.Require("api-surface", 2000)
 	for _, op := range []string{"ln", "log10", "exp", "pow", "sqrt", "cbrt", "add", "mul", "quo", "round"} {
 		r.Require("high-precision/"+op, 20)
 	}
